@@ -8,6 +8,11 @@ require (
 	google.golang.org/protobuf v1.23.0
 )
 
-require golang.org/x/text v0.3.7 // indirect
+require (
+	golang.org/x/mod v0.6.0-dev.0.20220419223038-86c51ed26bb4 // indirect
+	golang.org/x/sys v0.0.0-20220722155257-8c9f86f7a55f // indirect
+	golang.org/x/text v0.3.7 // indirect
+	golang.org/x/tools v0.1.12 // indirect
+)
 
 replace github.com/lyft/protoc-gen-star/v2 => /repo
